@@ -53,6 +53,9 @@ type C03Case struct {
 	// laboratory runs with the forced-close period shortened to c03Grace (a minute in production): a tunnel older
 	// than that period has still the whole period left once its first direction finishes.
 	AgedMs int `json:"aged_ms,omitempty"`
+	// ConnectCL > 0 (routes direct, socks5, connectfunc): the CONNECT carries "Content-Length: N". A CONNECT has no
+	// content - the proxy says so in its log and ignores the field; every byte after the head belongs to the tunnel.
+	ConnectCL int `json:"connect_cl,omitempty"`
 }
 
 const c03Grace = 1200 * time.Millisecond
@@ -104,6 +107,9 @@ func genC03(t *rapid.T) C03Case {
 	}
 	if c.Target.Early > 0 && (c.Route == "http" || c.Route == "https" || c.Route == "socks5") && rapid.Bool().Draw(t, "upearly") {
 		c.UpEarly = rapid.IntRange(1, c.Target.Early).Draw(t, "upearlyn")
+	}
+	if (c.Route == "direct" || c.Route == "socks5" || c.Route == "connectfunc") && rapid.IntRange(0, 5).Draw(t, "connectcl") == 0 {
+		c.ConnectCL = rapid.SampledFrom([]int{1, 5, 100, 5000}).Draw(t, "connectcln")
 	}
 	return c
 }
@@ -622,6 +628,9 @@ func runC03once(c C03Case) []vstat.Failure {
 		head = []byte(fmt.Sprintf("GET http://%s/ws HTTP/1.1\r\nHost: %s\r\nConnection: Upgrade\r\nUpgrade: tunnel-test\r\n\r\n", taddr, taddr))
 	} else {
 		head = []byte(fmt.Sprintf("CONNECT %s HTTP/1.1\r\nHost: %s\r\n\r\n", taddr, taddr))
+		if c.ConnectCL > 0 {
+			head = []byte(fmt.Sprintf("CONNECT %s HTTP/1.1\r\nHost: %s\r\nContent-Length: %d\r\n\r\n", taddr, taddr, c.ConnectCL))
+		}
 	}
 	// head and early client data in one segment
 	if _, err := conn.Write(append(head, Payload2(cid, 0, c.Client.Early)...)); err != nil {
@@ -747,6 +756,9 @@ func sum(a []int) int {
 
 func classifyC03(c C03Case) (bool, string, []string) {
 	cls := []string{"route-" + c.Route, "close-" + c.Close}
+	if c.ConnectCL > 0 {
+		cls = append(cls, "connect-with-content-length")
+	}
 	nt := false
 	if c.TLSList {
 		cls = append(cls, "tls-listener")
